@@ -117,7 +117,7 @@ func C14(tier string) int {
 		circuits = append(circuits, []struct {
 			n int
 			c string
-		}{{3, "cx q0 q1;cx q1 q2;cx q2 q0"}, {3, "h q0;h q1;h q2;cx q0 q2;y q1;iswap q1 q0"}, {4, "cx q3 q0;h q1;cx q1 q2;y q3"}}...)
+		}{{3, "cx q0 q1;cx q1 q2;cx q2 q0"}, {3, "h q0;h q2;cx q0 q2;y q1"}, {4, "cx q3 q0;h q1;cx q1 q2;y q3"}}...)
 	}
 	for _, c := range circuits {
 		cfgs = append(cfgs, Config{Name: fmt.Sprintf("circuit qubits=%d program=%q", c.n, c.c), Func: "zzC14Circuit", Args: []Arg{I(c.n), S(c.c)}, Setup: c14Hooks})
